@@ -17,6 +17,8 @@ CHECKS = {
     "C10": dict(spec="TblClientAuth", consts={Q: {}, T: {}}, tables=[("VERIF_TABLE_CLIENTAUTH", "c10", "clientauth")], cap={Q: 10**7, T: 10**7}),
     "C06": dict(spec="TblHmac", consts={Q: {}, T: {}}, tables=[("VERIF_TABLE_HMAC", "c06hmac", "hmac"), ("VERIF_TABLE_JWT", "c06jwt", "jwt")],
                 cap={Q: 10**7, T: 10**7}, n={Q: 4, T: 120}),
+    "C15": dict(spec="TblAssertion", consts={Q: {"MaxDev": 2}, T: {"MaxDev": 3}}, tables=[("VERIF_TABLE_ASSERT", "c15", "assert")], cap={Q: 10**7, T: 10**7}),
+    "C14": dict(spec="TblIDToken", consts={Q: {}, T: {}}, tables=[("VERIF_TABLE_IDT", "c14", "idt")], cap={Q: 10**7, T: 10**7}),
     "C13": dict(spec="TblAuthz", consts={Q: {}, T: {}}, tables=[("VERIF_TABLE_AUTHZ", "c13", "authz")], cap={Q: 16000, T: 10**7}),
     "C11": dict(spec="TblRedirect", consts={Q: {"Depth": 1}, T: {"Depth": 2}},
                 tables=[("VERIF_TABLE_REDIRECT", "c11", "redirect")], cap={Q: 20000, T: 10**7}),
@@ -108,7 +110,17 @@ def corrupt_c06(rows, rnd):
     return out
 
 
-CORRUPT = {"c06hmac": corrupt_c06, "c06jwt": corrupt_c06, "c11": corrupt_c11, "c07life": corrupt_c07, "c10": corrupt_c10, "c13": corrupt_c13}
+def corrupt_c14(rows, rnd):
+    out = []
+    cand = [r for r in rows if r["issued"]]
+    for r in rnd.sample(cand, min(3, len(cand))):
+        r = dict(r)
+        r["issued"] = False
+        out.append(r)
+    return out
+
+
+CORRUPT = {"c15": corrupt_c06, "c14": corrupt_c14, "c06hmac": corrupt_c06, "c06jwt": corrupt_c06, "c11": corrupt_c11, "c07life": corrupt_c07, "c10": corrupt_c10, "c13": corrupt_c13}
 ATTACHED = {"C07": "C07L"}      # decision tables that are part of a stateful check
 
 
@@ -170,6 +182,20 @@ def check(prop, tier, seed, replay=None):
         return 0
 
     nviol, cov = run(prop, prop, tier, seed, binary, wd)
+    if prop == "C15":   # "a given jti is accepted at most once, also when identical requests arrive concurrently"
+        import steps
+        findings = [f for f in load_findings() if f.get("status") == "open"]
+        part = steps.run_part(prop, binary, wd, "jti", "ScnJti", 0, "FaultKinds",
+                              ["JtiAtMostOnce", "JtiSomeoneWins", "MintFresh", "TypeOK", "NoTokensOnFailure"],
+                              "sim" if tier == Q else "bfs", 1500 if tier == Q else 200000, seed)
+        sv, snotes, sknown, sreplays = steps.report(prop, [part], binary, wd, findings)
+        nviol += sv
+        cov["concurrent_presentations"] = {"scenarios": "ScnJti", "schedules_executed": len(part["histories"]), "schedules_total_or_sampled_from": part["total"],
+                                           "design_model_check": part["mc"], "trace_validation": part["rep"]["stats"],
+                                           "sample": part["histories"][0], "violation_replays": sreplays}
+        cov["states"] += part["mc"]["distinct"]
+        cov["transitions"] += part["mc"]["generated"]
+        cov["traces_validated_against_impl"] += len(part["histories"])
     write_evidence(prop, tier, seed, "model_checking", cov, time.time() - t0, nviol, ASSUMPTIONS)
     shutil.rmtree(wd, ignore_errors=True)
     log(f"[done] {prop} {tier}: violations={nviol} rows={cov['traces_validated_against_impl']}/{cov['states']} wall={time.time()-t0:.1f}s")
